@@ -634,6 +634,11 @@ def universe_state(u: SerdeUniverse, with_dc=True) -> dict:
     st["nName"] = [_sn(n.name) for n in u.nodes]
     st.pop("mt", None)
     st["root"] = 1
+    # "is a graph output" as the graphs' own output lists tell it: a flag that says yes while no graph lists the value
+    # (possible only after a bookkeeping defect of the containers, the subject of C01) must not put the model outside
+    # the quantifier of C03 - it was reached through the public API and is written out and read back like any other
+    listed = {id(x) for g in u.graphs for x in g.outputs}
+    st["s"]["vIsOut"] = [bool(f and id(v) in listed) for f, v in zip(st["s"]["vIsOut"], u.values)]
     return st
 
 
@@ -806,7 +811,10 @@ def run_state(rec: dict, k: int) -> dict:
         if not fl["pre_ok"]:
             bad = [key for key in exp if (real.get(key) != exp[key])]
             finding("DIV", "DIV:pre-state:" + "+".join(bad), message="the replayed history does not reach the specification's state")
-            return res
+            # The property speaks about every IR model the public API can build: the state actually reached is
+            # still written out, read back and judged by TLC on what was observed; only the comparison with the
+            # specification's own serialization (Ser, tnPost) has nothing to compare with.
+            rec = {"h": h}
     model = decorate(u, k)
     fl["ir_version"] = model.ir_version
     fl["nfunc"] = len(model.functions)
